@@ -140,7 +140,10 @@ CHECKS = {
              'parse -> fill_in_let -> expand_macros -> run; TLC decides validity on the MODEL program (ValidAll) and validates: '
              'invalid => JaqalError at some stage, literal violations already at parse, valid (under declared and overriding '
              'values) => accepted, accepted => every applied gate acts on the resolved qubits.',
-        note='One-directional. Precedence between injected and imported gate sets is not covered yet.',
+        note='One-directional for the pipeline stage. Gate environment stage: TLC enumerates every (injected dictionary, autoload flag, '
+             'sequence of <= 2 (quick) / 3 usepulses imports over two pulse modules with an overlapping gate name, call) of the GateEnvEnum '
+             'machine (theorems InjectedWins, LastImportWins, ImportIdempotent) and validates acceptance against the definition in effect, '
+             'the native gate table and the definition the statement refers to.',
         design='5/C14', technique='TLA+ static validity (ValidAll, LiteralInvalid); TLC-enumerated programs replayed through the pipeline; TLC validation'),
     'C16': dict(
         text='(a) every character string of LexEnum (<= 3-4 chars over 15 representative characters), every token string of '
